@@ -1,4 +1,5 @@
 import TlsProofs.ErrPath
+import TlsProofs.Flights
 /-
   C08 — malformed peer input fails cleanly, promptly and within bounded memory (the part that is
   logic; see DESIGN.md section 5/C08 and section 8 for what is explored by the harness instead).
@@ -461,3 +462,145 @@ theorem decompressOld_unbounded :
     (decompressOld 1000 51000 true ⟨50000000, true, false⟩).produced = 50000000 := ⟨rfl, rfl⟩
 
 end Tls.ErrPath
+
+namespace Tls
+
+/-! ### the flights after the hellos -/
+
+namespace Flights
+open Tls.Flights Tls.ErrPath
+
+/-- TLS 1.3 server, the client's second flight ([Certificate] [CertificateVerify] Finished with
+    ChangeCipherSpec records anywhere): whatever the items and their features, the checks of
+    `_serverTLS13Handshake` end in an alert, wait for input or pass — never in an exception. -/
+theorem tls13_server_flight_checks_total (c : Srv13) (fl : List Item) :
+    (server13 c fl).noEscape = true := by
+  unfold server13
+  simp only []
+  flight_walk
+
+/-- TLS <= 1.2 server: [Certificate] ClientKeyExchange [CertificateVerify] ChangeCipherSpec Finished. -/
+theorem tls12_server_flight_checks_total (c : Srv12) (fl : List Item) :
+    (server12 c fl).noEscape = true := by
+  unfold server12
+  simp only []
+  flight_walk
+
+/-- TLS <= 1.2 client: Certificate / ServerKeyExchange / CertificateRequest / ServerHelloDone,
+    then ChangeCipherSpec and Finished (`_clientKeyExchange`, `_clientFinished`). -/
+theorem tls12_client_flight_checks_total (c : Cli12) (fl : List Item) :
+    (client12 c fl).noEscape = true := by
+  have hske : ∀ cert ske fl, (c.certSuite = true → cert.isSome = true) →
+      (client12AfterSke c cert ske fl).noEscape = true := by
+    intro cert ske fl hc
+    unfold client12AfterSke
+    repeat' (first
+      | exact client12AfterDone_noEscape c _ _ _ _ hc
+      | rfl
+      | (apply andThen_noEscape' (get12hs_good' _ _); intro _ _)
+      | split)
+  have hcert : ∀ cert fl, (c.certSuite = true → cert.isSome = true) →
+      (client12AfterCert c cert fl).noEscape = true := by
+    intro cert fl hc
+    unfold client12AfterCert
+    repeat' (first
+      | exact hske _ _ _ hc
+      | (apply andThen_noEscape' (get12hs_good' _ _); intro _ _)
+      | split)
+  unfold client12
+  split
+  · apply andThen_noEscape' (get12hs_good' _ _)
+    intro ct rest
+    exact hcert _ _ (fun _ => rfl)
+  · rename_i h
+    exact hcert _ _ (fun h' => absurd h' h)
+
+/-- TLS 1.3 client, the server's flight after ServerHello: EncryptedExtensions, [CertificateRequest],
+    Certificate (per-entry extensions, delegated credential), CertificateVerify, Finished, the answers
+    to the CertificateRequest and the ALPN / heartbeat checks done last.  Hypothesis: what the parsers
+    establish (a message with a duplicated extension type does not parse). -/
+theorem tls13_client_flight_checks_total (c : Cli13) (fl : List Item) (hwf : ∀ i ∈ fl, i.wf = true) :
+    (client13 c fl).noEscape = true := by
+  unfold client13
+  apply andThen_noEscape (get13_good (fun i => i.wf = true) [8] fl hwf)
+  intro ee rest hw hp _
+  obtain ⟨he, hx⟩ := wf_nodup hw hp
+  cases he1 : ee.e1 with
+  | dup => rw [he1] at he; exact Bool.noConfusion he
+  | absent =>
+    simp only [getExt]
+    cases client13Rsl c none with
+    | some p => rfl
+    | none =>
+      simp only
+      apply andThen_noEscape' (get13_good' _ _)
+      intro m rest2
+      split <;> exact client13WithCert_noEscape c ee _ _ hx
+  | present v =>
+    simp only [getExt]
+    cases client13Rsl c (some v) with
+    | some p => rfl
+    | none =>
+      simp only
+      apply andThen_noEscape' (get13_good' _ _)
+      intro m rest2
+      split <;> exact client13WithCert_noEscape c ee _ _ hx
+
+/-- The HelloRetryRequest decision and the comparison of the second ClientHello: no combination of
+    (first hello's shares and groups, server groups, second hello) escapes.  Hypothesis as above.  Needs
+    the `fix:` for the psk_ke hello without supported_groups (before it: AttributeError at
+    `supported.groups`). -/
+theorem hrr_checks_total (h : Hrr) (hwf : h.keyShare2.isDup = true → h.parse2 ≠ 0) :
+    (hrrChecks h).noEscape = true := by
+  unfold hrrChecks
+  cases h.keyShare with
+  | none => rfl
+  | some shares =>
+    simp only
+    split
+    · rfl
+    · cases h.supGroups with
+      | none => rfl
+      | some groups =>
+        simp only
+        cases List.find? (fun x => groups.contains x) h.acceptable with
+        | none => rfl
+        | some sel =>
+          simp only
+          by_cases hp : (h.parse2 != 0) = true
+          · simp only [hp, if_true]; rfl
+          · simp only [hp, Bool.false_eq_true, if_false]
+            cases hk : h.keyShare2 with
+            | dup =>
+              have := hwf (by rw [hk]; rfl)
+              simp at hp
+              exact absurd hp this
+            | absent => rfl
+            | present v =>
+              cases v with
+              | none => rfl
+              | some l =>
+                cases l with
+                | nil => simp [Out.noEscape]
+                | cons g tl => simp only; repeat' (first | rfl | split)
+
+/-- non-vacuity: honest flights pass, a few broken ones get the alert the code sends -/
+example : server13 ⟨true, false⟩ [{ htype := 11 }, { htype := 15 }, { ctype := 20, ccs := [1] }, { htype := 20 }] = .pass := rfl
+example : server13 ⟨true, false⟩ [{ htype := 11, b1 := false }, { htype := 20, b1 := false }]
+    = .alert 51 "Finished value is not valid" := rfl
+example : server12 ⟨false, true⟩ [{ htype := 16, b1 := false }, { ctype := 20, ccs := [1] }, { htype := 20 }]
+    = .alert 20 "MAC failure (or padding failure)" := rfl
+example : client12 ⟨true, true, false, true⟩ [{ htype := 11 }, { htype := 12 }, { htype := 14 }, { ctype := 20, ccs := [1] }, { htype := 20 }]
+    = .pass := rfl
+example : client13 ⟨false, true, false, false, true, false, false⟩
+    [{ htype := 8 }, { htype := 11 }, { htype := 15 }, { htype := 20 }] = .pass := rfl
+example : client13 ⟨false, true, false, false, true, false, false⟩
+    [{ htype := 8 }, { htype := 11, b1 := false }, { htype := 15 }, { htype := 20 }]
+    = .alert 47 "Other party sent a Certificate message without certificates" := rfl
+example : hrrChecks ⟨some [30], some [30, 29], [23, 29], 0, .present (some [29]), 0, false, true, true⟩ = .pass := rfl
+example : hrrChecks ⟨some [30], none, [23, 29], 0, .present (some [29]), 0, false, true, true⟩
+    = .alert 109 "Missing supported_groups extension" := rfl
+
+end Flights
+
+end Tls
